@@ -163,6 +163,15 @@ Lemma xrun_task_moves_effect f q k cid e H1 :
   xrun_task FUEL (S f) q k = xrun_task FUEL f q (mkC (push_hout e H1) (k_spawn k) (k_slab k) (k_events k) (k_out k) (k_log k) (k_reqs k)).
 Proof. intros G E. cbn [xrun_task]. rewrite G, E. reflexivity. Qed.
 
+(* ... and when the command is finished the executor releases it: the slot is freed and the Command value dropped *)
+Lemma xrun_task_done_releases f q k cid H1 :
+  xget q (k_slab k) = Some cid -> poll_next FUEL cid (WExec q) (k_H k) = Some (PNDone, H1) -> cid < length (cmds H1) ->
+  exists k', xrun_task FUEL (S f) q k = Some k' /\ xget q (k_slab k') = None /\ c_alive (gcmd cid (k_H k')) = false.
+Proof.
+  intros G E L. cbn [xrun_task]. rewrite G, E. eexists. split; [reflexivity|]. cbn [k_slab k_H].
+  split; [apply xget_xremove | unfold dfuel; apply Perm.drop_cmd_dead; exact L].
+Qed.
+
 (* every state of every run of an app under a Core satisfies the order invariant *)
 Inductive creach (hs : handlers) : core -> core -> Prop :=
 | cr_refl k : creach hs k k
